@@ -540,6 +540,18 @@ func strengthen(fs []Fact) []Fact {
 				out = append(out, Fact{L: ge.L.add(linConst(1), -1)})
 			}
 		}
+		// a length is never negative: len(x) != 0 is len(x) >= 1
+		if ne.L.C == 0 && len(ne.L.T) == 1 {
+			for atom, c := range ne.L.T {
+				if strings.HasPrefix(atom, "len(") && (c == 1 || c == -1) {
+					l := ne.L
+					if c == -1 {
+						l = l.scale(-1)
+					}
+					out = append(out, Fact{L: l.add(linConst(1), -1)})
+				}
+			}
+		}
 	}
 	return out
 }
@@ -624,6 +636,7 @@ func boolCallFacts(c *ssa.Call, truth bool) []Fact {
 				inlineDepth--
 				continue
 			}
+			fs = strengthen(fs)
 		} else {
 			for _, a := range condAtoms(ret.Results[0], truth, 0) {
 				fs = append(fs, factsOfAtom(a)...)
